@@ -260,5 +260,6 @@ fn vmp_apply_dft_to_dft_core<const OVERWRITE: bool, REIM>(
         }
     }
 
-    REIM::reim_zero(&mut res[col_max * n..]);
+    // Only col_max - limb_offset columns were written above: everything after them is zeroed.
+    REIM::reim_zero(&mut res[(col_max - limb_offset) * n..]);
 }
